@@ -419,6 +419,66 @@ pub fn hash(s: &str) -> u64 {
     h
 }
 
-pub fn explore_cmd(_args: &[String]) {
-    unimplemented!("explore")
+/// C10: stateless depth-first enumeration of ALL completion orders of a case.
+/// Every execution is re-run from the start with a prefix of choices (FIFO
+/// after the prefix); the widths of the quiescent points it met tell which
+/// alternatives remain.  Each execution becomes one run of the output trace;
+/// all runs of a case form one comparison group (same verdict).
+pub fn explore_cmd(args: &[String]) {
+    let cases = crate::read_cases(&get_arg(args, "--cases").expect("--cases"));
+    let out_path = get_arg(args, "--out").expect("--out");
+    let max: usize = get_arg(args, "--max-schedules").map(|s| s.parse().unwrap()).unwrap_or(2000);
+    crate::run::install_panic_hook();
+    let mut out = std::io::BufWriter::new(std::fs::File::create(&out_path).unwrap());
+    let mut summary = Vec::new();
+    for case in &cases {
+        let mut stack: Vec<Vec<u32>> = vec![vec![]];
+        let mut done = 0usize;
+        let mut truncated = false;
+        // the synchronous run is the reference of the group
+        let sync_case = Case {
+            cfg: Cfg { mode: "sync".into(), group: case.id, same: String::new(), ..case.cfg.clone() },
+            ..case.clone()
+        };
+        for l in crate::run::run_case(&sync_case).lines {
+            writeln!(out, "{l}").unwrap();
+        }
+        while let Some(prefix) = stack.pop() {
+            if done >= max {
+                truncated = true;
+                break;
+            }
+            let c = Case {
+                id: case.id * 100000 + done as u64 + 1,
+                profile: format!("{}+sched", case.profile),
+                cfg: Cfg {
+                    mode: "prefix".into(),
+                    prefix: prefix.clone(),
+                    group: case.id,
+                    same: "verdict".into(),
+                    render: false,
+                    ..case.cfg.clone()
+                },
+                ..case.clone()
+            };
+            let o = crate::run::run_case(&c);
+            done += 1;
+            for l in &o.lines {
+                writeln!(out, "{l}").unwrap();
+            }
+            // alternatives at and beyond the end of the prefix
+            let mut executed = prefix.clone();
+            for i in prefix.len()..o.widths.len() {
+                for alt in 1..o.widths[i] {
+                    let mut p = executed.clone();
+                    p.push(alt);
+                    stack.push(p);
+                }
+                executed.push(0);
+            }
+        }
+        summary.push(serde_json::json!({"case": case.id, "schedules": done, "exhaustive": !truncated}));
+    }
+    out.flush().unwrap();
+    std::fs::write(format!("{out_path}.summary"), serde_json::to_string(&summary).unwrap()).unwrap();
 }
